@@ -735,7 +735,10 @@ impl ParserListener for Screen {
             // .. note:: We can't use `cursor_forward()`, because that
             //           way, we'll never know when to linefeed.
             if char_width > 0 {
-                self.cursor.x = std::cmp::min(self.cursor.x + char_width as u32, self.columns);
+                self.cursor.x = std::cmp::min(
+                    self.cursor.x.saturating_add(char_width as u32),
+                    self.columns,
+                );
             }
         }
 
@@ -758,7 +761,7 @@ impl ParserListener for Screen {
 
         let line = self.buffer.entry(self.cursor.y).or_insert_with(HashMap::new);
         for x in (self.cursor.x..self.columns).rev() {
-            if x + count < self.columns {
+            if x.saturating_add(count) < self.columns {
                 let x_val = line.get(&x);
                 match x_val {
                     Some(val) => {
@@ -802,7 +805,10 @@ impl ParserListener for Screen {
     /// # Parameters
     /// - `count`: Number of columns to skip.
     fn cursor_forward(&mut self, count: Option<u32>) {
-        self.cursor.x += count.filter(|&c| c != 0).unwrap_or(1);
+        self.cursor.x = self
+            .cursor
+            .x
+            .saturating_add(count.filter(|&c| c != 0).unwrap_or(1));
         self.ensure_hbounds();
     }
 
@@ -992,7 +998,7 @@ impl ParserListener for Screen {
         let default_char = self.default_char();
         let line = self.buffer.entry(self.cursor.y).or_insert(HashMap::new());
         for x in self.cursor.x..self.columns {
-            if x + count < self.columns {
+            if x.saturating_add(count) < self.columns {
                 if let Some(char_opts) = line.remove(&(x + count)) {
                     line.insert(x, char_opts);
                 } else {
@@ -1021,7 +1027,7 @@ impl ParserListener for Screen {
         let count = count.map(|a| if a > 0 { a } else { 1 }).unwrap_or(1);
 
         let line = self.buffer.entry(self.cursor.y).or_insert(HashMap::new());
-        for x in self.cursor.x..std::cmp::min(self.cursor.x + count, self.columns) {
+        for x in self.cursor.x..std::cmp::min(self.cursor.x.saturating_add(count), self.columns) {
             line.insert(x, self.cursor.attr.clone());
         }
     }
